@@ -5,7 +5,7 @@ import ast
 from typing import List
 
 from ..callgraph import callgraph
-from ..cfg import cfg_of, dominating_edges, edges_dominate, node_calls, nodes_dominate
+from ..cfg import cfg_of, dominating_edges, edges_dominate, node_calls, nodes_dominate, reach
 from ..defuse import def_value, derives_from, reaching_defs, resolve_alias
 from ..esp import UNKNOWN, run_function
 from ..model import Func, Repo, body_nodes, norm, short
@@ -18,6 +18,10 @@ def check(repo: Repo, rep, tier):
     fmt_taint_fragment(repo, rep)
     utf8(repo, rep)
     escape_once(repo, rep)
+    escape_nonprintable(repo, rep)
+    from .C01 import repr_parse
+
+    repr_parse(repo, rep)
     from .C03 import io_encoding
 
     io_encoding(repo, rep)
@@ -216,28 +220,38 @@ def escape_once(repo: Repo, rep):
         "the literal ends in a backslash plus an unescaped quote and no longer evaluates to the value",
     )
     n = 0
-    for f in repo.pkg_funcs():
-        if f.module.rel != "_utils.py" or f.parent is not None:
+    # (a) per-character escapes of a quote variable: function -> {name of the variable it compares the character with}
+    escapers = {}
+    for g in repo.pkg_funcs():
+        if g.module.rel != "_utils.py" or not g.params:
             continue
-        inner = [g for g in repo.pkg_funcs() if g.parent is not None and g.parent == f]
-        # (a) per-character escape of a quote variable
-        quote_vars = set()
-        for g in inner:
-            if not g.params:
-                continue
-            c = g.params[0]
-            gcfg = cfg_of(g)
-            for r in gcfg.stmts(ast.Return):
-                x = _is_backslash_prefix(r.ast.value) if r.ast.value is not None else None
-                if isinstance(x, ast.Name) and x.id == c:
-                    for cond, lab in dominating_edges(gcfg, r):
-                        t = cond.ast
-                        if lab == "T" and isinstance(t, ast.Compare) and len(t.ops) == 1 and isinstance(t.ops[0], ast.Eq):
-                            for a, b in ((t.left, t.comparators[0]), (t.comparators[0], t.left)):
-                                if isinstance(a, ast.Name) and a.id == c and isinstance(b, ast.Name) and b.id != c:
-                                    quote_vars.add(b.id)
-        if not quote_vars:
-            continue
+        c = g.params[0]
+        gcfg = cfg_of(g)
+        for r in gcfg.stmts(ast.Return):
+            x = _is_backslash_prefix(r.ast.value) if r.ast.value is not None else None
+            if isinstance(x, ast.Name) and x.id == c:
+                for cond, lab in dominating_edges(gcfg, r):
+                    t = cond.ast
+                    if lab == "T" and isinstance(t, ast.Compare) and len(t.ops) == 1 and isinstance(t.ops[0], ast.Eq):
+                        for a_, b_ in ((t.left, t.comparators[0]), (t.comparators[0], t.left)):
+                            if isinstance(a_, ast.Name) and a_.id == c and isinstance(b_, ast.Name) and b_.id != c:
+                                escapers.setdefault(g.key, (g, set()))[1].add(b_.id)
+    # the functions that use such an escaper, and under which local name they hold the quote variable
+    users = {}
+    for g, vs in escapers.values():
+        for v in vs:
+            if g.parent is not None and v not in g.params:
+                users.setdefault(g.parent.key, (g.parent, set()))[1].add(v)  # closure variable of the enclosing function
+            elif v in g.params:
+                idx = g.params.index(v)
+                for f in repo.pkg_funcs():
+                    if f.module.rel != "_utils.py":
+                        continue
+                    for call in [x for x in ast.walk(f.node) if isinstance(x, ast.Call) and isinstance(x.func, ast.Name) and x.func.id == g.name]:
+                        arg = call.args[idx] if len(call.args) > idx else next((k.value for k in call.keywords if k.arg == v), None)
+                        if isinstance(arg, ast.Name):
+                            users.setdefault(f.key, (f, set()))[1].add(arg.id)
+    for f, quote_vars in users.values():
         cfg = cfg_of(f)
         # (b) escape of the last character
         for a in cfg.stmts(ast.Assign):
@@ -258,3 +272,31 @@ def escape_once(repo: Repo, rep):
                     construct="final-quote",
                 )
     rep.count("final_quote_escapes", n)
+
+
+def escape_nonprintable(repo: Repo, rep):
+    rep.rule(
+        "R-ESCAPE-NONPRINTABLE",
+        "the per-character escape of the string-literal helper turns every character for which `str.isprintable()` is false (apart from the \\n / \\t it "
+        "keeps on purpose) into its unicode_escape form: the branch that returns `c.encode('unicode_escape')` is taken on the `not c.isprintable()` edge.  "
+        "isprintable() is Python's own definition of what repr() escapes; a hand-made category list leaves out lone surrogates (Cs), unassigned (Cn) or "
+        "format characters, which are then written raw - a lone surrogate cannot even be encoded when the file is written",
+    )
+    n = 0
+    for g in repo.pkg_funcs():
+        if g.module.rel != "_utils.py" or not g.params:
+            continue
+        c = g.params[0]
+        gcfg = cfg_of(g)
+        escs = [r for r in gcfg.stmts(ast.Return) if r.ast.value is not None and "unicode_escape" in norm(r.ast.value)]
+        for r in escs:
+            n += 1
+            conds = [cn for cn in gcfg.conds() if isinstance(cn.ast, ast.Call) and isinstance(cn.ast.func, ast.Attribute) and cn.ast.func.attr == "isprintable" and norm(cn.ast.func.value) == c]
+            # the escape is reached on the F edge (not printable) of such a test
+            good = any(r in reach(gcfg, [b for b, l in cn.succ if l == "F"]) for cn in conds)
+            # and no printable-edge-only path avoids it for a non-printable character: the T edge must not be the only way
+            if good:
+                rep.ok("R-ESCAPE-NONPRINTABLE", g, r.ast, "non-printable characters are escaped (isprintable)")
+            else:
+                rep.violation("R-ESCAPE-NONPRINTABLE", g, r.ast, f"{g.qualname} no longer escapes on `not {c}.isprintable()`: code points outside its own list (lone surrogates, unassigned, format characters) are written raw into the literal - the file cannot be encoded / the literal does not read back", construct=f"{g.qualname}:isprintable")
+    rep.floor("R-ESCAPE-NONPRINTABLE", "unicode_escape returns in the string helper", n, 1)
